@@ -375,7 +375,10 @@ OnOut(h, pkt) ==
                      "D3", d0.st = "badflags" /\ d0.fl = 10 /\ replayed)
       \* once the outbound stream is garbled nothing written later on this transport can be attributed
       \* to a request: the other monitors stop for the rest of this run (as for D2)
-      h1 == IF d.st # "ok" /\ Len(h1a.v) > Len(h0.v) THEN [C17Owed(h, h1a) EXCEPT !.taint = 2] ELSE h1a
+      \* C09: what cannot be decoded is not what the application asked to send
+      h1b == IF d.st # "ok" /\ Len(h1a.v) > Len(h0.v)
+             THEN Viol(h1a, "C09", "an outbound packet cannot be decoded by an independent MQTT 5 decoder") ELSE h1a
+      h1 == IF d.st # "ok" /\ Len(h1a.v) > Len(h0.v) THEN [C17Owed(h, h1b) EXCEPT !.taint = 2] ELSE h1a
       h2 == Check(h1, (h.wn = 0) = (pkt[1] \div 16 = CONNECT), "C01",
                   "CONNECT must be the first and only the first packet on a transport")
       \* D2: a disconnect() whose future was dropped after its DISCONNECT had reached the wire
